@@ -14,7 +14,8 @@ C02 line protocol.  One line = one whole history over a small "world" of caches
   on_miss `a,b` is the function k ↦ a*k+b; with `/ke/ve` (key lists `k.k.k` or `-`) it raises
   KeyError for the keys in ke and ValueError for the keys in ve;  with `/ke/ve/prog/depth` it is RE-ENTRANT
   (`Reent.lean`): `prog` = `k=op+op+…~k=op+…` gives, per key, the calls on_miss(k) makes on the cache it was
-  called from (op tokens as below with cache number 0; `?op` = the call is wrapped in try / except Exception: pass)
+  called from (op tokens as below with cache number 0; `?op` = the call is wrapped in try / except Exception: pass;
+  `@w:kt:op` = `if (kt in cache) == (w = 1): op`, a callback that branches on what it sees)
   before it returns / raises as `a,b/ke/ve` say (`a,b,st`: it returns a*k+b+st*(number of earlier on_miss calls on this
   cache), a callback with state); `depth` is the nesting depth at which the callback raises ValueError instead (the
   interpreter's fuel);  keys, values are naturals (value 0 stands for
@@ -147,9 +148,42 @@ def logLenH (w : List H) (i : Nat) : Nat := match w[i]? with
 def recordH (nk : Nat) (res : String) (calls : List Nat) (w : List H) : String :=
   "|".intercalate (s!"{res}@{showNats calls}" :: w.map (dumpH nk))
 
-/-- `k=op+op~k=op…` -> the calls on_miss(k) makes, per key; a call written `?op` is wrapped in
-    `try: … except Exception: pass` -/
-def parseProg? (s : String) : Option (List (Nat × List (Bool × Op Nat Nat))) :=
+/-- one statement of a harness callback: a call (`true` = wrapped in `try: … except Exception: pass`), or
+    `if (kt in cache) == want: call` — the callback BRANCHES on what the membership test answers -/
+inductive OmStmt where
+  | plain (guarded : Bool) (op : Op Nat Nat)
+  | cond (want : Bool) (kt : Nat) (guarded : Bool) (op : Op Nat Nat)
+
+/-- the callback as a strategy tree: the statements in order, then the outcome `r`; an exception of a call that is
+    not guarded ends the callback with it -/
+def ofStmts : List OmStmt → OmRes Nat → OmProg Nat Nat
+  | [], r => .done r
+  | .plain g a :: rest, r => .call a fun o =>
+    match o with
+    | .keyError => if g then ofStmts rest r else .done .keyError
+    | .raised => if g then ofStmts rest r else .done .error
+    | _ => ofStmts rest r
+  | .cond want kt g a :: rest, r => .call (.contains kt) fun t =>
+    match t with
+    | .bool b =>
+      if b = want then .call a fun o =>
+        match o with
+        | .keyError => if g then ofStmts rest r else .done .keyError
+        | .raised => if g then ofStmts rest r else .done .error
+        | _ => ofStmts rest r
+      else ofStmts rest r
+    | _ => ofStmts rest r
+
+/-- `?op` / `op` -> (guarded, call on cache 0) -/
+def parseAct? (t : String) : Option (Bool × Op Nat Nat) :=
+  let guarded := t.startsWith "?"
+  match parseOp? 1 (if guarded then (t.drop 1).toString else t) with
+  | some (.on _ op) => some (guarded, op)
+  | _ => none
+
+/-- `k=stmt+stmt~k=stmt…` -> the statements of on_miss(k), per key; a statement is `op`, `?op` (the call is wrapped
+    in `try: … except Exception: pass`) or `@w:kt:op` / `@w:kt:?op` (`if (kt in cache) == (w = 1): op`) -/
+def parseProg? (s : String) : Option (List (Nat × List OmStmt)) :=
   if s = "-" ∨ s = "" then some [] else
   (splitOnChar s '~').foldr (fun w acc =>
     match acc, splitOnChar w '=' with
@@ -157,14 +191,24 @@ def parseProg? (s : String) : Option (List (Nat × List (Bool × Op Nat Nat))) :
       match k.toNat? with
       | none => none
       | some k =>
-        let acts : Option (List (Bool × Op Nat Nat)) :=
+        let stmts : Option (List OmStmt) :=
           if body = "-" ∨ body = "" then some [] else
           (splitOnChar body '+').foldr (fun t acc =>
-            let guarded := t.startsWith "?"
-            match acc, parseOp? 1 (if guarded then (t.drop 1).toString else t) with
-            | some l, some (.on _ op) => some ((guarded, op) :: l)
-            | _, _ => none) (some [])
-        acts.map fun a => (k, a) :: l
+            match acc with
+            | none => none
+            | some l =>
+              if t.startsWith "@" then
+                match splitOnChar ((t.drop 1).toString) ':' with
+                | w :: kt :: rest =>
+                  match w.toNat?, kt.toNat?, parseAct? (":".intercalate rest) with
+                  | some w, some kt, some (g, op) => some (.cond (w = 1) kt g op :: l)
+                  | _, _, _ => none
+                | _ => none
+              else
+                match parseAct? t with
+                | some (g, op) => some (.plain g op :: l)
+                | none => none) (some [])
+        stmts.map fun a => (k, a) :: l
     | _, _ => none) (some [])
 
 /-- the history loop, for any representation of the caches -/
@@ -187,7 +231,7 @@ def handle (line : String) : String :=
     let resOf (a b : Nat) (ke ve : List Nat) : Nat → OmRes Nat :=
       fun k => if ke.contains k then .keyError else if ve.contains k then .error else .ret (a * k + b)
     -- (on_miss as a function of the key; re-entrant part: calls per key, state factor, depth)
-    let onMiss? : Option (Option (Nat → OmRes Nat) × Option (List (Nat × List (Bool × Op Nat Nat)) × Nat × Nat × Nat × Nat × List Nat × List Nat)) :=
+    let onMiss? : Option (Option (Nat → OmRes Nat) × Option (List (Nat × List OmStmt) × Nat × Nat × Nat × Nat × List Nat × List Nat)) :=
       if om = "-" then some (none, none) else
       match splitOnChar om '/' with
       | [ab] =>
@@ -214,7 +258,7 @@ def handle (line : String) : String :=
       let P : List Nat → Nat → OmProg Nat Nat := fun lg k =>
         match re with
         | some (prog, _, a, b, st, ke, ve) =>
-          OmProg.ofList ((lookup k prog).getD [])
+          ofStmts ((lookup k prog).getD [])
             (if ke.contains k then .keyError else if ve.contains k then .error else .ret (a * k + b + st * lg.length))
         | none => .done .keyError
       let depthOf : Nat := match re with
